@@ -44,11 +44,12 @@ ASSUMPTIONS = ["memory safety of the compiled object code beyond the models' ind
 # every package with a model; the sanitizer variant is discovered from the package's own prop.py (see _pick_variant)
 AGGREGATE = ["C01", "C03", "C04", "C06a", "C06b", "C07", "C08", "C09", "C10", "C11", "C12", "C14", "C17", "C18", "C19", "C20"]
 # quick tier: cases sampled per package (the thorough tier runs the package's whole quick AND thorough generators)
-QUICK_CASES = {"C01": 2500, "C06a": 6000, "C08": 6000, "C10": 4000, "C14": 6000, "C17": 400, "C18": 6000, "C19": 3000, "C07": 1500}
+QUICK_CASES = {"C01": 10000, "C03": 6000, "C06a": 20000, "C07": 6000, "C08": 20000, "C10": 20000, "C12": 10000, "C14": 20000, "C17": 1500, "C18": 20000, "C19": 6000, "C20": 6000}
 QUICK_DEFAULT = 4000
 THOROUGH_CASES = 400000
-# sanitizer variants a package marks thorough_only are built and run by the thorough tier only, except these (cheap build)
-QUICK_ALSO = {"C17"}
+# C02 is THE sanitizer property: variants that a package marks thorough_only (too expensive for the package's own quick
+# tier) are still built and run here, on a sample, in the quick tier.  QUICK_SKIP: packages left to the thorough tier.
+QUICK_SKIP = set()
 
 
 def gen(tier, rng):
@@ -124,8 +125,8 @@ def _one_package(pid, tier, seed):
         return res
     res["variant"] = h["name"]
     res["sanitizers"] = " ".join(_sanitizer_flags(h))
-    if tier == "quick" and h.get("thorough_only") and pid not in QUICK_ALSO:
-        res["skipped"] = f"variant {h['name']} is thorough_only in props/{pid}/prop.py: built and run by ./check C02 --tier thorough"
+    if tier == "quick" and pid in QUICK_SKIP:
+        res["skipped"] = f"variant {h['name']} of {pid} is built and run by ./check C02 --tier thorough only"
         return res
     exe, log = engine.build_harness(pid, h["name"], h["src"], h["flags"], h.get("compiler", "g++"))
     if exe is None:
